@@ -307,7 +307,7 @@ fn build_doc(spec: &V) -> AutoCommit {
 /// registers reachable through winners that hold more than one value
 fn count_conflicts<D: ReadDoc>(doc: &D, obj: &ObjId, typ: ObjType) -> usize {
     let mut n = 0;
-    let mut visit = |vals: Vec<(Value<'_>, ObjId)>, win: Option<(Value<'_>, ObjId)>, n: &mut usize| {
+    let visit = |vals: Vec<(Value<'_>, ObjId)>, win: Option<(Value<'_>, ObjId)>, n: &mut usize| {
         if vals.len() > 1 { *n += 1; }
         if let Some((Value::Object(t), id)) = win {
             if t != ObjType::Text { *n += count_conflicts(doc, &id, t); }
